@@ -36,6 +36,8 @@ def run(chk):
     # necessary condition here as well
     from . import c01 as _c01
     _c01.run(chk)
+    from . import ctors as _ctors9
+    _ctors9.run(chk, w, only=["model::Model::new", "DictModel::new"])
     for rid, txt in (("R09.1", "kind consistency char<->type"), ("R09.2", "arm forms and twins"),
                      ("R09.3", "dictionary role flow"), ("R09.4", "bias provenance")):
         chk.rule(rid, txt)
